@@ -122,7 +122,7 @@ def h_hosted(env):
 Contract(
     "repair.hosted_constraint", ["C26"], ["pydcop.reparation:create_computation_hosted_constraint"],
     h_hosted,
-    lambda tier: [dict(n=n) for n in ((1, 2, 3, 4, 5) if tier == "quick" else (1, 2, 3, 4, 5, 6, 7))],
+    lambda tier: [dict(n=n) for n in ((1, 2, 3, 4, 5) if tier == "quick" else (1, 2, 3, 4, 5, 6))],   # AGENTS has 6 names
     mode="E", must_cover=["post"],
     desc="hosted constraint of a computation with n candidate agents: 0 iff exactly one binary variable is 1, else the 10000 penalty; "
          "all 2^n assignments, 4 call paths",
@@ -276,7 +276,7 @@ def h_comm(env):
         env.prove("comm.scope-has-the-local-variable-and-every-candidate-neighbour-variable",
                   set(needed) <= set(_scope_names(c)), detail=lambda: (_scope_names(c), needed))
     names = [v.name for v in bv.values()]
-    free = needed if form != "assignment_cost" else needed
+    free = needed
     rest = [n for n in names if n not in needed]
     for bits in _bits(len(free)):
         asg = {n: 1 for n in rest}
